@@ -130,6 +130,18 @@ func (r *runner) checkOne(f format, m wamp.Message, ps *[]pending) wamp.Message 
 		r.disagree(in, renderMsg(m2), renderMsg(m), true, "roundtrip: Deserialize(Serialize(m)) differs from m for "+strct)
 		return m2
 	}
+	// the message must own its data: a transport reuses or discards the bytes it was decoded from
+	before := renderMsg(m2)
+	keep := append([]byte(nil), b...)
+	for i := range b {
+		b[i] = 'Z'
+	}
+	if after := renderMsg(m2); after != before {
+		in["bytes"] = hex.EncodeToString(keep)
+		r.disagree(in, after, before, true, "roundtrip: the deserialized "+strct+" changes when the buffer it was read from is overwritten (it aliases its input)")
+		return nil
+	}
+	b = keep
 	// wire layout, on the generically decoded bytes
 	g, err, p := genericDecode(f.s, b)
 	gl, isList := g.([]any)
